@@ -271,6 +271,42 @@ def build(run):
         return F, dF, [{nm(f): "v0"}]
     e2e("derivative/automatic argument", auto_arg)
 
+    # tuple of coefficients whose directions are COMPONENTS OF ONE ARGUMENT (an argument of the mixed space, its split, or the argument derivative()
+    # creates itself), with gradients of every coefficient of the tuple in the integrand, the coefficients listed in either order
+    def tuple_mixed_direction(order, how):
+        def mkcase():
+            F = (inner(grad(u), grad(u)) + f * div(u) + (1 + f * f) * grad(f)[i] * grad(f)[i] + u[i] * grad(f)[i]) * dx
+            su, sf = {(0,): (0,), (1,): (1,)}, {(): (2,)}
+
+            def seed_for(cmap, name):
+                def fn(desc, world):
+                    nm_, comp, idx, dirs = desc
+                    tgt = cmap.get(tuple(comp))
+                    return None if tgt is None else (name, tuple(tgt), idx, dirs)
+                return fn
+            if how == "automatic argument":
+                cs = (u, f) if order == "u,f" else (f, u)
+                if order == "f,u":
+                    su, sf = {(0,): (1,), (1,): (2,)}, {(): (0,)}
+                dF = derivative(F, cs)
+                return F, dF, [{nm(u): seed_for(su, "v0"), nm(f): seed_for(sf, "v0")}]
+            vmu, vmf = split(vm)
+            if how == "mixed argument":
+                if order == "f,u":
+                    return None
+                dF = derivative(F, (u, f), vm)
+            elif how == "split":
+                dF = derivative(F, (u, f), (vmu, vmf)) if order == "u,f" else derivative(F, (f, u), (vmf, vmu))
+            else:
+                dF = derivative(F, (u, f), (as_vector([vm[0], vm[1]]), vm[2])) if order == "u,f" else derivative(F, (f, u), (vm[2], as_vector([vm[0], vm[1]])))
+            return F, dF, [{nm(u): seed_for(su, nm(vm)), nm(f): seed_for(sf, nm(vm))}]
+        return mkcase
+    for order in ("u,f", "f,u"):
+        for how in ("mixed argument", "split", "components", "automatic argument"):
+            if how == "mixed argument" and order == "f,u":
+                continue
+            e2e(f"derivative/tuple ({order}) in the direction of one argument: {how}", tuple_mixed_direction(order, how))
+
     def two_components():
         F = (u[0] * u[1] * f + u[1] ** 3) * dx
         return F, derivative(F, (u[0], u[1]), (vf, v2f)), [comp_seed(u, {(0,): (vf, ()), (1,): (v2f, ())})]
